@@ -96,6 +96,12 @@ fn days_for(class: u8, tier: Tier) -> Vec<i64> {
                 Tier::Quick => range((1990, 1, 1), (2040, 12, 31)),
                 Tier::Thorough => range((1900, 1, 1), (2100, 12, 31)),
             });
+            // every leap month code M01L..M12L occurs: the first occurrence of each after the year 1000 in the
+            // chinese and in the dangi calendar (found by `tmc leapscan`), and the dangi M12L of 1890; +-20 days
+            for (y, m, d) in [(1051, 3, 5), (1002, 3, 24), (1010, 4, 25), (1018, 5, 27), (1007, 6, 24), (1015, 7, 26), (1004, 9, 5), (1251, 10, 4), (1107, 10, 30), (1289, 11, 23), (1012, 12, 30), (1404, 2, 1), (1029, 4, 29), (1010, 5, 23), (1012, 11, 4), (1032, 1, 4), (1890, 2, 1)] {
+                let c = days_from_civil(y, m, d);
+                v.extend(c - 20..=c + 20);
+            }
         }
         _ => {
             v.extend(match tier {
@@ -307,6 +313,26 @@ impl Space for CalSweep {
                 }
                 let got = call(|| other.with(PartialDate::new().with_month_code(Some(mc)).with_day(Some(cd)), ov));
                 out.lockstep("other.with({monthCode, day}) within the calendar year", &Ok((y, m, d)), &got, same, || wa(format!("{delta:+}d")));
+            }
+        }
+        // 6a. one day beyond either end of the range is refused, whatever the calendar
+        if (day == MAX_DAY && (cd as u16) < dim) || (day == MIN_DAY && cd > 1) {
+            let beyond = if day == MAX_DAY { cd + 1 } else { cd - 1 };
+            for (ovn, ov) in [("constrain", Some(ArithmeticOverflow::Constrain)), ("reject", Some(ArithmeticOverflow::Reject))] {
+                let mut p = PartialDate::default();
+                p.calendar = cal.clone();
+                p.day = Some(beyond);
+                p.month_code = Some(mc);
+                if let (Some(e), Some(ey)) = (&era, era_year) {
+                    p.era = TinyAsciiStr::<19>::try_from_utf8(e.as_bytes()).ok();
+                    p.era_year = Some(ey);
+                } else {
+                    p.year = Some(cy);
+                }
+                let got = call(|| PlainDate::from_partial(p.clone(), ov));
+                out.lockstep("a date one day beyond the range is refused", &Err::<(), _>(ErrorKind::Range), &got.map(|_| ()), |_, _| true, || attrs(vec![("fields", format!("{f:?}")), ("overflow", ovn.into()), ("beyond_day", beyond.to_string())]));
+                let got = call(|| date.with(PartialDate::new().with_day(Some(beyond)), ov));
+                out.lockstep("with() to one day beyond the range is refused", &Err::<(), _>(ErrorKind::Range), &got.map(|_| ()), |_, _| true, || attrs(vec![("fields", format!("{f:?}")), ("overflow", ovn.into()), ("beyond_day", beyond.to_string())]));
             }
         }
         // 6b. changing the calendar of a value that already has a calendar keeps its ISO date (and time, and
